@@ -862,13 +862,24 @@ def _resolve_action_conflicts(
                 competing_event = get_event_from_element(
                     state, competing_flow_state, competing_element
                 )
-                if winning_event.is_equal(competing_event):
-                    if (
-                        isinstance(winning_event, ActionEvent)
-                        and winning_event.action_uid
-                        and isinstance(competing_event, ActionEvent)
-                        and competing_event.action_uid
-                    ):
+                is_same_action = winning_event.is_equal(competing_event)
+                refers_to_other_action = (
+                    isinstance(winning_event, ActionEvent)
+                    and winning_event.action_uid
+                    and isinstance(competing_event, ActionEvent)
+                    and competing_event.action_uid
+                    and winning_event.action_uid != competing_event.action_uid
+                )
+                if is_same_action and refers_to_other_action:
+                    # Events of two different actions (e.g. the Stop events of two running
+                    # actions) are only the same action if the competing one has not started yet
+                    competing_action = state.actions.get(competing_event.action_uid)
+                    is_same_action = (
+                        competing_action is not None
+                        and competing_action.status == ActionStatus.INITIALIZED
+                    )
+                if is_same_action:
+                    if refers_to_other_action:
                         # All heads that are on the exact same action as the winning head
                         # need to replace their action references with the winning heads action reference
                         for (
